@@ -21,6 +21,7 @@ import (
 	"github.com/google/go-tdx-guest/abi"
 	"github.com/google/go-tdx-guest/pcs"
 	pb "github.com/google/go-tdx-guest/proto/tdx"
+	"github.com/google/go-tdx-guest/rtmr"
 	"github.com/google/go-tdx-guest/validate"
 	"github.com/google/go-tdx-guest/verify"
 	"google.golang.org/protobuf/proto"
@@ -243,6 +244,39 @@ func runC10(r *mc.Run) {
 			c10Call(r, id, "validate.RawTdxQuote", nil, func() error { return validate.RawTdxQuote(raw, vopts) })
 		})
 		r.SectionDone(mc.Section{Name: "message-consistent-sizes", Evaluations: int64(doneS) * 12, Exhaustive: doneS == len(szs)})
+	}
+	// RTMR lists of other shapes that still add up to 4 x 48 bytes (and some that do not)
+	{
+		splits := [][]int{{96, 48, 48}, {48, 96, 48}, {48, 48, 96}, {96, 96}, {192}, {144, 48}, {48, 144}, {47, 49, 48, 48}, {0, 96, 48, 48}, {48, 48, 48, 48, 0}, {0, 48, 48, 48, 48},
+			{48, 48, 48, 24, 24}, {24, 24, 24, 24, 24, 24, 24, 24}, {1, 191}, {191, 1}, {48, 48, 48}, {48, 48, 48, 48, 48}, {64, 64, 64}, {0, 0, 0, 192}, {192, 0, 0, 0}, {0, 0, 0, 0}, {}}
+		all := make([]byte, 0, 192)
+		for _, x := range q0.GetTdQuoteBody().GetRtmrs() {
+			all = append(all, x...)
+		}
+		for len(all) < 192 {
+			all = append(all, 0)
+		}
+		doneR := r.Parallel(len(splits), func(i int) {
+			id := fmt.Sprintf("msg/rtmr-list-shape/%v", splits[i])
+			if !r.Want(id) {
+				return
+			}
+			q := proto.Clone(q0).(*pb.QuoteV4)
+			var list [][]byte
+			off := 0
+			for _, n := range splits[i] {
+				e := make([]byte, n)
+				if off+n <= len(all) {
+					copy(e, all[off:off+n])
+				}
+				off += n
+				list = append(list, e)
+			}
+			q.TdQuoteBody.Rtmrs = list
+			entries(id, q, true)
+			c10Call(r, id, "rtmr.GetRtmrsFromTdQuote", nil, func() error { _, e := rtmr.GetRtmrsFromTdQuote(q); return e })
+		})
+		r.SectionDone(mc.Section{Name: "message-rtmr-list-shapes", Evaluations: int64(doneR) * 10, Exhaustive: doneR == len(splits)})
 	}
 	// nil-ish messages
 	for name, q := range map[string]any{"typed-nil": (*pb.QuoteV4)(nil), "empty": &pb.QuoteV4{}, "untyped-nil": nil, "other-type": &pb.Header{}, "string": "quote"} {
